@@ -21,6 +21,9 @@ CFG = dict(
         _stage(0, 6000, 250000),
         _stage(2, 8000, 250000),
         _stage(3, 8000, 250000),
+        # several threads converting ticks at once, each on its own frequency pair; digests must equal the single-threaded run
+        seq("mt_tsan", "tsan", "mt_pure.c", 32, 3200, mode="clock", params={0: 400}, wrap=True, leak=False),
+        seq("mt_rel", "rel", "mt_pure.c", 64, 6400, mode="clock", params={0: 6000}, leak=False),
     ],
     rule=("case = one BLOCK of up to 4096 operand tuples of one kind (bin64: add/mul/sub saturating+checked for u64 and "
           "size_t, min/max u64/i64/size, aws_add_size_checked_varargs; bin32: the u32 helpers, min/max u32/i32/int; small: "
